@@ -175,7 +175,7 @@ def run_shard(args):
                 continue
             n_examples = max(1, int(n_examples * float(os.environ.get('FJVERIF_SCALE', '1'))))
             state = {'first_fail_t': None, 'last_fail': None, 'gave_up': False}
-            shrink_cap = 45 if tier == 'quick' else 200
+            shrink_cap = float(os.environ.get('FJVERIF_SHRINK_CAP_S') or (45 if tier == 'quick' else 200))
 
             def body(case):
                 if state['gave_up']:
